@@ -333,6 +333,7 @@ fn weight_bound_findings(findings: &mut Vec<Finding>, case: &J, context: &str) {
 
 /// Spins on the public `total_weight_used()` and checks the range at the API boundary (C01 b).
 fn observer(cache: Arc<Cache>, max: i64, stop: Arc<AtomicBool>, samples: Arc<AtomicU64>, bad: Arc<Mutex<Vec<i64>>>, lo: Arc<AtomicI64>, hi: Arc<AtomicI64>) {
+    rt::register_helper_thread();
     while !stop.load(Ordering::Relaxed) {
         let total = cache.total_weight_used();
         samples.fetch_add(1, Ordering::Relaxed);
@@ -451,7 +452,7 @@ fn run_mixed(focus: &'static str, seed: u64, index: u64, clean: bool) -> CaseOut
     // clock advancer: moves the harness clock forward while clients run (expiry + sweeps race the worker)
     let advancer = if cfg.ttl {
         let (clock, stop) = (sut.clock.clone(), stop.clone());
-        Some(thread::spawn(move || { let mut n = 0u64; while !stop.load(Ordering::Relaxed) { clock.advance(NS / 4); n += 1; thread::sleep(Duration::from_micros(300)); } n }))
+        Some(thread::spawn(move || { rt::register_helper_thread(); let mut n = 0u64; while !stop.load(Ordering::Relaxed) { clock.advance(NS / 4); n += 1; thread::sleep(Duration::from_micros(300)); } n }))
     } else { None };
     let marks = sut.marks;
     let mut handles = Vec::new();
